@@ -3,18 +3,11 @@
    satisfiable by a concrete non-trivial world (Props/C11.v). rank = position of the class statement. *)
 From Coq Require Import List Bool String Arith Lia.
 Import ListNotations.
-Require Import Base Mro Interp ObjModel InheritHeap HeapFrame.
+Require Import Base Mro Interp ObjModel InheritHeap HeapFrame HeapBuild.
 
-Definition names (w : world) : list string := map k_name (w_cls w).
 Fixpoint index_of (c : string) (l : list string) : nat :=
   match l with [] => 0 | x :: t => if String.eqb x c then 1 else match index_of c t with 0 => 0 | S n => S (S n) end end.
 Definition rank_of (w : world) (c : string) : nat := index_of c (names w).
-
-Lemma attr_in_names w c a : attr_of w c = Some a -> In c (names w).
-Proof.
-  unfold attr_of, find_kls, names. destruct (find _ (w_cls w)) as [k|] eqn:E; [|discriminate]. intros _.
-  apply find_some in E. destruct E as [Hin He]. apply String.eqb_eq in He. subst c. apply in_map. exact Hin.
-Qed.
 
 (* ---- hierarchy ---- *)
 Definition hier_ok_b (w : world) : bool :=
@@ -41,7 +34,7 @@ Qed.
 Theorem hier_ok_b_sound w : hier_ok_b w = true -> hier_ok w (rank_of w).
 Proof.
   unfold hier_ok_b. rewrite forallb_forall. intros H. constructor.
-  - intros c a Ha. specialize (H c (attr_in_names _ _ _ Ha)). apply andb_prop in H. destruct H as [H _].
+  - intros c Hc. specialize (H c Hc). apply andb_prop in H. destruct H as [H _].
     destruct (M w c) as [|x t]; [discriminate|]. apply String.eqb_eq in H. subst x. eauto.
   - intros c b d Hb Hd. destruct (in_dec string_dec c (names w)) as [Hin|Hout].
     + specialize (H c Hin). apply andb_prop in H. destruct H as [_ H]. rewrite forallb_forall in H. specialize (H b Hb).
@@ -104,6 +97,47 @@ Fixpoint all_worlds (fuel : nat) (w : world) (l : list cspec) : list (option wor
                  | None => [None] end
   end.
 Definition checked (ow : option world) : bool := match ow with Some w => wwf_b w && hier_ok_b w | None => false end.
-(* used by the C11 family on every generated scenario: do all worlds on the way satisfy the hypotheses of the frame theorems? *)
+(* ---- the hypothesis of Thm/C11/HeapBuild.v (prefixes_ok: distinct class names + two facts about the C3 linearisations of every
+   prefix of the class list) as a boolean, with rank = position of the class statement ---- *)
+Lemma mro_of_not_class hl c : ~ In c (map fst hl) -> tl (mro_of hl c) = [].
+Proof.
+  intros Hn. unfold mro_of. rewrite mro_table_other by exact Hn. cbn [lookup]. destruct (String.eqb "object" c); reflexivity.
+Qed.
+Definition hier_ok_hb (hl : list (string * list string)) (rank : string -> nat) : bool :=
+  forallb (fun c => match mro_of hl c with x :: _ => String.eqb x c | [] => false end &&
+                    forallb (fun b => forallb (fun d => Nat.ltb (rank d) (rank c)) (mro_of hl b)) (tl (mro_of hl c))) (map fst hl).
+Lemma hier_ok_hb_sound hl rank : hier_ok_hb hl rank = true -> hier_ok_h hl rank.
+Proof.
+  unfold hier_ok_hb. rewrite forallb_forall. intros H. split.
+  - intros c Hc. specialize (H c Hc). apply andb_prop in H. destruct H as [H _].
+    destruct (mro_of hl c) as [|x t]; [discriminate|]. apply String.eqb_eq in H. subst x. eauto.
+  - intros c b d Hb Hd. destruct (in_dec string_dec c (map fst hl)) as [Hin|Hout].
+    + specialize (H c Hin). apply andb_prop in H. destruct H as [_ H]. rewrite forallb_forall in H. specialize (H b Hb).
+      rewrite forallb_forall in H. specialize (H d Hd). apply Nat.ltb_lt in H. exact H.
+    + rewrite (mro_of_not_class _ _ Hout) in Hb. destruct Hb.
+Qed.
+Fixpoint prefixes_ok_b (hl0 : list (string * list string)) (specs : list cspec) (rank : string -> nat) : bool :=
+  match specs with
+  | [] => true
+  | c :: rest => hier_ok_hb (hl0 ++ [spec_h c]) rank && forallb (fun x => Nat.ltb (rank x) (rank (cs_name c))) (map fst hl0) &&
+                 negb (existsb (String.eqb (cs_name c)) (map fst hl0)) && prefixes_ok_b (hl0 ++ [spec_h c]) rest rank
+  end.
+Lemma prefixes_ok_b_sound specs rank : forall hl0, prefixes_ok_b hl0 specs rank = true -> prefixes_ok hl0 specs rank.
+Proof.
+  induction specs as [|c rest IH]; intros hl0; cbn [prefixes_ok_b prefixes_ok]; [auto|].
+  intros H. apply andb_prop in H. destruct H as [H H4]. apply andb_prop in H. destruct H as [H H3]. apply andb_prop in H. destruct H as [H1 H2].
+  split; [apply hier_ok_hb_sound; exact H1|]. split; [|split; [|apply IH; exact H4]].
+  - rewrite forallb_forall in H2. intros x Hx. apply Nat.ltb_lt. apply H2. exact Hx.
+  - intros Hin. apply negb_true_iff in H3. assert (existsb (String.eqb (cs_name c)) (map fst hl0) = true); [|congruence].
+    apply existsb_exists. exists (cs_name c). split; [exact Hin|apply String.eqb_refl].
+Qed.
+Definition spec_rank (specs : list cspec) (c : string) : nat := index_of c (map cs_name specs).
+(* closed form: the only hypothesis left is a computation about the class list and its C3 linearisations *)
+Theorem built_world_wwf_b fuel patchers specs w :
+  prefixes_ok_b [] specs (spec_rank specs) = true -> define_all fuel (world0 patchers) specs = Some w -> wwf w.
+Proof. intros H. apply (built_world_wwf (spec_rank specs)). apply prefixes_ok_b_sound. exact H. Qed.
+
+(* used by the C11 family on every generated scenario: the hypothesis of built_world_wwf_b, and (redundantly, as a cross-check of the
+   theorem by computation) wwf_b / hier_ok_b on every world on the way *)
 Definition run_case_wf (patchers : list (nat * list string)) (classes : list cspec) : bool :=
-  forallb checked (all_worlds 40 (world0 patchers) classes).
+  prefixes_ok_b [] classes (spec_rank classes) && forallb checked (all_worlds 40 (world0 patchers) classes).
